@@ -45,14 +45,14 @@ Section Value.
   Definition v3_dist2 (x1 x2 : vec3) : T := v3norm2 (v3sub x1 x2).
   Definition v3_grad (x1 x2 : vec3) : vec3 := v3scale two (v3sub x1 x2).
 
-  (* ---- unit vector (the cosine is clamped to [-1,1]; coincident vectors get a null derivative) ---- *)
+  (* ---- unit vector (the cosine is clamped to [-1,1]; coincident and exactly opposite vectors get a null derivative) ---- *)
   Definition clamp1 (c : T) : T := if nltb O one c then one else if nltb O c (nneg O one) then nneg O one else c.
   Definition uv_dist2 (v1 v2 : vec3) : T := let th := nacos O (clamp1 (v3dot v1 v2)) in th * th.
   Definition tiny28 : T := ndiv O one (nmul O (nofZ O 100000000000000) (nofZ O 100000000000000)).
   Definition uv_grad (v1 v2 : vec3) : vec3 :=
     let c := v3dot v1 v2 in
     let s2 := one - c * c in
-    if nltb O zero c && nltb O s2 tiny28 then (zero, zero, zero)
+    if nltb O s2 tiny28 then (zero, zero, zero)
     else v3scale (two * nacos O c * nneg O one / nsqrt O s2) v2.
 
   (* ---- quaternion ---- *)
